@@ -284,7 +284,7 @@ for i,sh in enumerate(SHAPES):
        bounds=f"line shape '{sh}' (a/A: 5 list,action spellings; F/C: filter text of 0..{hole} symbolic ASCII bytes in single quotes; S/k/w/p: 0..{ah} symbolic bytes; #: a stray word)"))
     if ah==2:
         c14.append(job("shape3-"+sh,"rule/flags","VH_Tokens",["C14/"],{"shape":i,"hole":hole,"arghole":3},T,bounds=f"line shape '{sh}' with S/k/w/p arguments of 0..3 symbolic bytes"))
-    if "F" in sh or "C" in sh:
+    if sh.count("F")+sh.count("C")==1:
         c14.append(job("shape6-"+sh.replace("#","stray"),"rule/flags","VH_Tokens",["C14/"],{"shape":i,"hole":6,"arghole":4},T,bounds=f"line shape '{sh}' with filter text of 0..6 symbolic bytes"))
 c14.append(job("parse-history","rule/flags","VH_ParseHistory",["C14/"],{},Q,expect=["C14/other-line-rejected"],bounds="4 lines x 12 other lines (11 rejected at different places, 1 accepted): Parse(line), Parse(other), Parse(line) give rules that build to the same bytes"))
 C["C14"]={"jobs":c14,"assumptions":PARSE_ASSUME[:2]+["hole bytes are ASCII and free of single quotes, so shell quoting of the assembled line is exact","repeated single-valued flags (-w x -w y, -a .. -a ..) are outside the domain explored: the property does not say whether last-wins is acceptable",
